@@ -275,8 +275,7 @@ def redownload(ctx: Ctx, rule: str) -> None:
             defs.setdefault(ast.unparse(s.targets[0]), []).append(ast.unparse(s.value))
     ok = (defs.get("local_state_exists") == ["params['get_state'] in cls._show(params, object)"]
           and defs.get("pool_state_exists") == ["params['get_state'] in cls.transport.show(source_params, object)"]
-          and sorted(defs.get("cache_valid", [])) == sorted(["False",
-              "cls.transport.compare_chain(params['get_state'], params['swarm_pool'], source_params['get_location'], source_params)"])
+          and defs.get("cache_valid") == ["local_state_exists and cls.transport.compare_chain(params['get_state'], params['swarm_pool'], source_params['get_location'], source_params)"]
           and defs.get("source_params['show_location']") == ["source"])
     ctx.record(rule + "d", "PROV", fref, "cache validity = compare_chain(state, own pool, source location) when the local state exists, else False", ok,
                {k: defs.get(k) for k in ("local_state_exists", "pool_state_exists", "cache_valid")},
@@ -286,7 +285,8 @@ def redownload(ctx: Ctx, rule: str) -> None:
     for v in views:
         for i, c in v.calls(lambda c: _is_transport_call(c) and call_name(c) == "get"):
             prem = v.premise(i, 0)
-            if norm.implies(prem, expr_formula(v, i, "local_state_exists")):
+            # the download happens on a path that an existing local copy can take (it is the failed comparison that leads here)
+            if not norm.implies(prem, norm.neg(expr_formula(v, i, "local_state_exists"))):
                 n_dl += 1
     ctx.record(rule + "r", "GUARD", fref, "a local copy that differs from the source is downloaded again", n_dl >= 1, {"paths": n_dl},
                "" if n_dl else "an existing but differing local copy is never refreshed from the pool")
@@ -644,8 +644,12 @@ def fresh_checksums(ctx: Ctx, rule: str) -> None:
             if isinstance(s_, ast.Assign) and len(s_.targets) == 1:
                 defs.setdefault(ast.unparse(s_.targets[0]), []).append(ast.unparse(s_.value))
         def fresh(var, path_args):
-            # every definition is either the missing-file marker '' or a hash_file call over the named file (block size / algorithm free)
-            vals = [s_.value for s_ in ast.walk(f.node) if isinstance(s_, ast.Assign) and len(s_.targets) == 1 and ast.unparse(s_.targets[0]) == var]
+            # every definition is the missing-file marker '' or a hash_file call over the named file (block size / algorithm free);
+            # `x = hash if exists else ''` and the if/else statement pair are the same thing
+            vals = []
+            for s_ in ast.walk(f.node):
+                if isinstance(s_, ast.Assign) and len(s_.targets) == 1 and ast.unparse(s_.targets[0]) == var:
+                    vals += [s_.value.body, s_.value.orelse] if isinstance(s_.value, ast.IfExp) else [s_.value]
             hashed = [v for v in vals if isinstance(v, ast.Call) and call_name(v) == "hash_file" and [ast.unparse(a) for a in v.args[:len(path_args)]] == path_args]
             empty = [v for v in vals if isinstance(v, ast.Constant) and v.value == ""]
             return len(hashed) == 1 and len(hashed) + len(empty) == len(vals)
